@@ -44,7 +44,7 @@ def gen_send_cases(ctx):
             if 0 <= n <= 2000:
                 add(mtu, rng.choice([4, 6, 4, 0x40]), n)
     for _ in range(400 if ctx.thorough else 40):
-        add(rng.randrange(23, 518), rng.choice([4, 6]), rng.randrange(0, 65536) if rng.random() < 0.15 else rng.randrange(0, 3000))
+        add(rng.randrange(23, 518), rng.choice([4, 6]), rng.randrange(0, 65536) if rng.random() < 0.08 else rng.randrange(0, 3000))
     # degenerate MTUs below 23 are outside the property (MTU >= 23) but inside the theorem (>= 2)
     for mtu in (2, 3, 5):
         for n in (0, 1, 2, 3, 7, 11):
@@ -179,7 +179,7 @@ def run(ctx):
     r2 = C.run_impl("C11.py", {"send": [], "recv": [[[f, d.hex()] for f, d in frs] for frs in recv_cases]})
 
     # ---- the same through the real LinkLayer of both stacks (LLID, payload) ----
-    step = 1 if ctx.thorough else 3
+    step = 1 if ctx.thorough else 4
     ll_send_idx = [i for i in range(0, len(send_cases), step) if len(send_cases[i][2]) <= 3000]
     ll_recv_idx = list(range(0, len(recv_cases), step))
     def to_ll(frs):
@@ -187,7 +187,28 @@ def run(ctx):
     ll_recv_in = {i: to_ll(recv_cases[i]) for i in ll_recv_idx}
     r3 = C.run_impl("C11.py", {"send_ll": [[send_cases[i][0], send_cases[i][1], send_cases[i][2].hex()] for i in ll_send_idx],
                                "recv_ll": [ll_recv_in[i] for i in ll_recv_idx]})
-    ctx.cov["evaluations"] = len(send_cases) + len(recv_cases) + len(ll_send_idx) + len(ll_recv_idx)
+    # ---- histories of MTU updates before an SDU; end-to-end object forwarding ----
+    after_cases = []
+    mt = [23, 24, 27, 64, 100, 185, 247, 251, 252, 300, 517]
+    for _ in range(400 if ctx.thorough else 60):
+        ops = [[rng.random() < 0.4, rng.choice(mt)] for _ in range(rng.randrange(1, 4))]
+        if rng.random() < 0.7:
+            ops.append([False, rng.choice(mt)])          # a peer MTU announced last
+        rm = 23
+        for il, m in ops:
+            if not il:
+                rm = m
+        n = rng.choice([rm - 1, rm, rm + 1, 2 * rm, 100, 3 * (rm - 1) + 2, rng.randrange(0, 700)])
+        cid = rng.choice([4, 4, 6])
+        after_cases.append((ops, cid, mk_sdu(rng, max(0, n), cid)))
+    e2e_cases = []
+    for mtu in ([23, 100, 251, 252, 253, 257, 300, 517] if not ctx.thorough else list(range(23, 518, 13)) + [251, 252, 253, 255, 256, 257, 517]):
+        for n in sorted({1, mtu - 1, mtu, mtu + 1, 2 * mtu, 255, 256, 260, 600}):
+            cid = rng.choice([4, 6])
+            e2e_cases.append((mtu, cid, [mk_sdu(rng, n, cid), mk_sdu(rng, rng.randrange(1, 40), cid)]))
+    r4 = C.run_impl("C11.py", {"send_after": [[o, c, s.hex()] for o, c, s in after_cases],
+                               "e2e": [[m, c, [s.hex() for s in ss]] for m, c, ss in e2e_cases]})
+    ctx.cov["evaluations"] = len(send_cases) + len(recv_cases) + len(ll_send_idx) + len(ll_recv_idx) + len(after_cases) + len(e2e_cases)
     ctx.cov["traces_validated_against_impl"] = ctx.cov["evaluations"]
 
     # ---- oracle: the property on the real code -----------------------------
@@ -250,6 +271,32 @@ def run(ctx):
             nviol += ctx.violation("delivery through the link layer differs from delivery of the same fragments at the L2CAP boundary",
                                    case, expected=r2["recv"][i]["out"], observed=res["out"])
 
+    for (ops, cid, sdu), res in zip(after_cases, r4["send_after"]):
+        case = {"op": "send_after", "mtu_ops": ops, "cid": cid, "sdu": sdu.hex()}
+        if "exc" in res:
+            nviol += ctx.violation("segmentation raised " + res["exc"] + " after MTU updates", case, observed=res)
+            continue
+        rm = 23
+        for il, m in ops:
+            if not il:
+                rm = m
+        big = [len(h) // 2 for _f, h in res["frags"] if len(h) // 2 > rm + 4]
+        if big:
+            nviol += ctx.violation("link-layer payload exceeds the peer's MTU + 4 after a history of MTU updates", case,
+                                   expected="<= %d" % (rm + 4), observed=big)
+    for (mtu, cid, sdus), res in zip(e2e_cases, r4["e2e"]):
+        case = {"op": "e2e", "mtu": mtu, "cid": cid, "sdus": [s.hex() for s in sdus]}
+        if "exc" in res:
+            nviol += ctx.violation("end-to-end transfer raised " + res["exc"], case, observed=res)
+            continue
+        exp = [[cid, s.hex()] for s in sdus if s]
+        if res["out"] != exp:
+            nviol += ctx.violation("data PDUs handed as produced to the peer stack do not reassemble into the SDUs that were sent", case,
+                                   expected=[[c, h[:40] + ".." if len(h) > 40 else h] for c, h in exp],
+                                   observed=[[c, h[:40] + ".." if len(h) > 40 else h] for c, h in res["out"]])
+        if any(z > mtu + 4 for z in res["sizes"]):
+            nviol += ctx.violation("link-layer payload exceeds MTU+4 (end to end)", case, observed=res["sizes"])
+
     # ---- correspondence inside Coq -----------------------------------------
     pre = "From Whad Require Import Lib.Bytes C11.Model.\nOpen Scope N_scope."
     def frag_lit(frs):
@@ -279,6 +326,13 @@ def run(ctx):
         if "out" in r3["recv_ll"][k]:
             ll_recv_terms.append("(%s, %s)" % (clist([cpair(str(l), cbytes(bytes.fromhex(h))) for l, h in ll_recv_in[i]]),
                                  clist([cpair(str(c), cbytes(bytes.fromhex(h))) for c, h in r3["recv_ll"][k]["out"]])))
+    after_terms = []
+    for (ops, cid, sdu), res in zip(after_cases, r4["send_after"]):
+        if "frags" in res:
+            after_terms.append("(%s, %d, %s, %s, %s)" % (
+                clist([cpair(cbool(il), cnat(m)) for il, m in ops]), cid, cbytes(sdu),
+                frag_lit([(f, bytes.fromhex(h)) for f, h in res["frags"]]), cnat(res["local_mtu"])))
+    bad_a, logs_a = C.run_cases(PID, "after", pre, "list (bool * nat) * N * bytes * list frag * nat", after_terms, "check_send_after", shard=150)
     bad_ls, logs_ls = C.run_cases(PID, "sendll", pre, "nat * N * bytes * list llpdu", ll_send_terms, "check_send_ll", shard=150)
     bad_lr, logs_lr = C.run_cases(PID, "recvll", pre, "list llpdu * list (N * bytes)", ll_recv_terms, "check_recv_ll", shard=200)
     bad_s, logs_s = C.run_cases(PID, "send", pre, "nat * N * bytes * list frag", send_terms, "check_send", shard=150)
@@ -324,16 +378,19 @@ def run(ctx):
             elif bad_r:
                 i = recv_idx[bad_r[0]]
                 first = {"op": "recv", "frags": [[f, d.hex()] for f, d in recv_cases[i]], "impl": r2["recv"][i]}
+            elif bad_a:
+                first = {"op": "send_after", "term": after_terms[bad_a[0]][:3000]}
             elif bad_ls:
                 first = {"op": "send_ll", "term": ll_send_terms[bad_ls[0]][:3000]}
             elif bad_lr:
                 first = {"op": "recv_ll", "term": ll_recv_terms[bad_lr[0]][:3000]}
             what = ("correspondence C11.Model vs L2CAPLayer/LinkLayer (%d send, %d recv, %d ll-send, %d ll-recv disagreements)" % (len(bad_s), len(bad_r), len(bad_ls), len(bad_lr))
-                    if (bad_s or bad_r or bad_ls or bad_lr) else
+                    if (bad_s or bad_r or bad_ls or bad_lr or bad_a) else
                     ("proof obligations of theories/C11: " + detail.splitlines()[0][:200]) if not proofs_ok else str(gen["what"]))
             ctx.broken_obligation(what, (detail if not proofs_ok else "\n".join(logs_s + logs_r)) + gen["detail"], first)
     ctx.cov["correspondence"] = {"send_cases": len(send_terms), "send_bad": len(bad_s), "recv_cases": len(recv_terms), "recv_bad": len(bad_r),
-                                 "ll_send_cases": len(ll_send_terms), "ll_send_bad": len(bad_ls), "ll_recv_cases": len(ll_recv_terms), "ll_recv_bad": len(bad_lr)}
+                                 "ll_send_cases": len(ll_send_terms), "ll_send_bad": len(bad_ls), "ll_recv_cases": len(ll_recv_terms), "ll_recv_bad": len(bad_lr),
+                                 "mtu_history_cases": len(after_terms), "mtu_history_bad": len(bad_a), "e2e_cases": len(e2e_cases)}
 
 
 def replay(payload):
